@@ -82,8 +82,24 @@ func (n *rnode) encode(target *int, dev int, applied *string) []byte {
 	*target--
 	if n.list || n.embedded {
 		var body []byte
-		for _, k := range n.kids {
+		kids := n.kids
+		if here && n.list {
+			// shape deviations: canonical RLP of a list of the wrong arity or kind
+			switch {
+			case dev == 9 && len(kids) > 0:
+				*applied = "list-element-dropped"
+				kids = kids[:len(kids)-1]
+			case dev == 10 && len(kids) > 0:
+				*applied = "list-element-repeated"
+				kids = append(append([]*rnode(nil), kids...), kids[len(kids)-1])
+			}
+		}
+		for _, k := range kids {
 			body = append(body, k.encode(target, dev, applied)...)
+		}
+		if here && n.list && dev == 11 {
+			*applied = "list-as-string"
+			return append(lenPrefix(0x80, len(body), false), body...)
 		}
 		if n.embedded {
 			// body is the payload; wrap it as a byte string
@@ -116,6 +132,31 @@ func (n *rnode) encode(target *int, dev int, applied *string) []byte {
 			*applied = "length-with-leading-zero"
 			l := len(s)
 			return append([]byte{0xb9, 0x00, byte(l)}, s...)
+		// shape deviations: canonical RLP of a string of the wrong length or kind (a field the
+		// receiving code may index, slice or convert without looking at its length)
+		case dev == 6 && len(s) > 0:
+			*applied = "string-emptied"
+			s = nil
+		case dev == 7 && len(s) > 1:
+			*applied = "string-cut-by-one"
+			s = s[:len(s)-1]
+		case dev == 8 && len(s) > 3:
+			*applied = "string-halved"
+			s = s[:len(s)/2]
+		case dev == 12 && len(s) > 0:
+			*applied = "string-extended"
+			s = append(append([]byte(nil), s...), 0x01)
+		case dev == 11 && len(s) > 0:
+			*applied = "string-as-list"
+			var body []byte
+			for _, b := range s[:min(len(s), 4)] {
+				if b < 0x80 {
+					body = append(body, b)
+				} else {
+					body = append(body, 0x81, b)
+				}
+			}
+			return append(lenPrefix(0xc0, len(body), false), body...)
 		}
 	}
 	if len(s) == 1 && s[0] < 0x80 {
@@ -195,7 +236,7 @@ func MutateStructured(c *kit.Chooser, data []byte) (out []byte, how string, ok b
 	n := root.count()
 	for attempt := 0; attempt < 6; attempt++ {
 		t := c.Intn("item", n)
-		dev := c.Intn("deviation", 6)
+		dev := c.Intn("deviation", 13)
 		applied := ""
 		out := root.encode(&t, dev, &applied)
 		if applied != "" {
